@@ -303,7 +303,7 @@ Proof. intros H. cbn. apply N.eqb_neq in H. rewrite H. reflexivity. Qed.
 
 Lemma publish_loop_safe atomic files listing : forall outer k f w,
   NoDup outer ->
-  (forall u, NoDup (listing u) /\ Permutation (listing u) (files u)) ->
+  (forall u, In u outer -> NoDup (listing u) /\ Permutation (listing u) (files u)) ->
   (forall u, In u outer -> atomic = true \/ w_store w u INDEX = Absent) ->
   (forall u, In u outer -> w_published w u = false) ->
   WorldOk files w ->
@@ -315,8 +315,9 @@ Lemma publish_loop_safe atomic files listing : forall outer k f w,
                              w_published (fst (fst r)) u = w_published w u).
 Proof.
   induction outer as [|u rest IH]; intros k f w Hnd Hl Hpre Hunp Hw; cbn [publish_loop].
-  - cbn [fst snd]. repeat split; auto. intros u [].
-  - destruct (Hl u) as [Hlu Hpu].
+  - cbn [fst snd]. split; [exact Hw|]. split; [intros _ u []|]. split; [auto|].
+    intros u _; split; reflexivity.
+  - destruct (Hl u (or_introl eq_refl)) as [Hlu Hpu].
     pose proof (image_crash_invariant atomic (files u) (listing u) k f (w_store w u)
                   Hlu Hpu (Hpre u (or_introl eq_refl)) (wo_store _ _ Hw u)) as Hinv.
     destruct (transfer atomic (transfer_order (listing u)) k f (w_store w u)) as [[[st' k'] ok] log].
@@ -332,7 +333,7 @@ Proof.
           + unfold w1. cbn [w_store set_published]. rewrite set_store_other by exact Hv. apply Hw.
         - intros v. unfold w1. cbn [w_published set_published w_store set_store].
           destruct (N.eqb v u) eqn:E.
-          + intros _. apply Hac. reflexivity.
+          + apply N.eqb_eq in E. subst v. intros _. apply Hac. reflexivity.
           + intros Hp. apply Hw. exact Hp. }
       assert (Hpre1 : forall v, In v rest -> atomic = true \/ w_store w1 v INDEX = Absent).
       { intros v Hv. assert (v <> u) by (intros ->; contradiction).
@@ -341,7 +342,7 @@ Proof.
       assert (Hunp1 : forall v, In v rest -> w_published w1 v = false).
       { intros v Hv. assert (Hvu : v <> u) by (intros ->; contradiction).
         unfold w1. cbn. apply N.eqb_neq in Hvu. rewrite Hvu. apply Hunp. right. exact Hv. }
-      specialize (IH k' f w1 Hnr Hl Hpre1 Hunp1 Hw1).
+      specialize (IH k' f w1 Hnr (fun v Hv => Hl v (or_intror Hv)) Hpre1 Hunp1 Hw1).
       destruct (publish_loop atomic rest listing k' f w1) as [[w2 ok2] log2].
       cbn [fst snd] in *. destruct IH as [Hw2 [Hall [Hmono Hframe]]].
       split; [exact Hw2|]. split; [|split].
@@ -363,4 +364,157 @@ Proof.
       * intros v Hp. exact Hp.
       * intros v Hv. assert (v <> u) by (intros ->; apply Hv; left; reflexivity).
         rewrite set_store_other by assumption. split; reflexivity.
+Qed.
+
+(* one publish() invocation *)
+Lemma publish_safe atomic files listing order f w :
+  NoDup order ->
+  (forall u, In u order -> NoDup (listing u) /\ Permutation (listing u) (files u)) ->
+  (forall u, In u order -> w_published w u = false -> atomic = true \/ w_store w u INDEX = Absent) ->
+  WorldOk files w ->
+  let r := publish atomic order listing f w in
+  WorldOk files (fst (fst r)) /\
+  (snd (fst r) = true -> forall u, In u order -> w_published (fst (fst r)) u = true) /\
+  (forall u, w_published w u = true -> w_published (fst (fst r)) u = true).
+Proof.
+  intros Hnd Hl Hpre Hw. unfold publish.
+  set (outer := filter (fun u => negb (w_published w u)) order).
+  assert (Hin : forall u, In u outer <-> In u order /\ w_published w u = false).
+  { intros u. unfold outer. rewrite filter_In, negb_true_iff. reflexivity. }
+  pose proof (publish_loop_safe atomic files listing outer 0 f w
+                (NoDup_filter _ Hnd)
+                (fun u Hu => Hl u (proj1 (proj1 (Hin u) Hu)))
+                (fun u Hu => Hpre u (proj1 (proj1 (Hin u) Hu)) (proj2 (proj1 (Hin u) Hu)))
+                (fun u Hu => proj2 (proj1 (Hin u) Hu)) Hw) as H.
+  cbn zeta in H. destruct H as [H1 [H2 [H3 _]]].
+  split; [exact H1|]. split; [|exact H3].
+  intros Hok u Hu. destruct (w_published w u) eqn:Hp.
+  - apply H3. exact Hp.
+  - apply H2; [exact Hok|]. apply Hin. auto.
+Qed.
+
+(* refresh never skips an image whose other files are incomplete *)
+Lemma refresh_skip_sound files w u :
+  WorldOk files w -> refresh_skips w u = true -> Others (files u) (w_store w u).
+Proof. intros Hw Hs. exact (wo_store _ _ Hw u Hs). Qed.
+
+(* a fault-free publish() completes the job whatever the earlier faults left *)
+Lemma publish_loop_nofault atomic files listing : forall outer k w,
+  NoDup outer ->
+  (forall u, In u outer -> NoDup (listing u) /\ Permutation (listing u) (files u)) ->
+  let r := publish_loop atomic outer listing k NoFault w in
+  snd (fst r) = true /\
+  (forall u, In u outer -> w_published (fst (fst r)) u = true /\
+                           AllComplete (files u) (w_store (fst (fst r)) u)) /\
+  (forall u, ~ In u outer -> w_store (fst (fst r)) u = w_store w u /\
+                             w_published (fst (fst r)) u = w_published w u) /\
+  snd r = flat_map (fun u => map (fun x => (u, x)) (transfer_order (listing u))) outer.
+Proof.
+  induction outer as [|u rest IH]; intros k w Hnd Hl; cbn [publish_loop flat_map].
+  - cbn [fst snd]. split; [reflexivity|]. split; [intros u []|]. split; [|reflexivity].
+    intros u _. split; reflexivity.
+  - destruct (Hl u (or_introl eq_refl)) as [Hlu Hpu].
+    pose proof (transfer_nofault atomic (transfer_order (listing u)) k (w_store w u)) as Hnf.
+    pose proof (transfer_ok_complete atomic (transfer_order (listing u)) k NoFault (w_store w u)) as Hc.
+    destruct (transfer atomic (transfer_order (listing u)) k NoFault (w_store w u)) as [[[st' k'] ok] log].
+    cbn [fst snd] in *. destruct Hnf as [-> ->].
+    inversion Hnd as [|? ? Hnu Hnr]; subst.
+    set (w1 := set_published (set_store w u st') u).
+    specialize (IH k' w1 Hnr (fun v Hv => Hl v (or_intror Hv))).
+    destruct (publish_loop atomic rest listing k' NoFault w1) as [[w2 ok2] log2].
+    cbn [fst snd] in *. destruct IH as [Hok [Hall [Hframe Hlog]]].
+    split; [exact Hok|]. split; [|split].
+    + intros v [<-|Hv]; [|apply Hall; exact Hv].
+      destruct (Hframe u Hnu) as [F1 F2]. rewrite F1, F2. unfold w1. cbn. rewrite N.eqb_refl.
+      split; [reflexivity|]. intros x Hx. apply Hc; [reflexivity|].
+      apply Permutation_in with (l := listing u); [apply Permutation_sym, transfer_order_perm; exact Hlu|].
+      apply Permutation_in with (l := files u); [apply Permutation_sym; exact Hpu|exact Hx].
+    + intros v Hv. assert (Hvu : v <> u) by (intros ->; apply Hv; left; reflexivity).
+      destruct (Hframe v) as [F1 F2]; [intros H'; apply Hv; right; exact H'|].
+      rewrite F1, F2. unfold w1. cbn. apply N.eqb_neq in Hvu. rewrite Hvu. split; reflexivity.
+    + rewrite Hlog. reflexivity.
+Qed.
+
+Lemma rerun_completes_all atomic files listing order w :
+  NoDup order ->
+  (forall u, In u order -> NoDup (listing u) /\ Permutation (listing u) (files u)) ->
+  (forall u, w_published w u = true -> AllComplete (files u) (w_store w u)) ->
+  let r := publish atomic order listing NoFault w in
+  snd (fst r) = true /\
+  forall u, In u order -> w_published (fst (fst r)) u = true /\
+                          AllComplete (files u) (w_store (fst (fst r)) u).
+Proof.
+  intros Hnd Hl Hpub. unfold publish.
+  set (outer := filter (fun u => negb (w_published w u)) order).
+  assert (Hin : forall u, In u outer <-> In u order /\ w_published w u = false).
+  { intros u. unfold outer. rewrite filter_In, negb_true_iff. reflexivity. }
+  pose proof (publish_loop_nofault atomic files listing outer 0 w (NoDup_filter _ Hnd)
+                (fun u Hu => Hl u (proj1 (proj1 (Hin u) Hu)))) as H.
+  cbn zeta in H. destruct H as [H1 [H2 [H3 _]]]. split; [exact H1|].
+  intros u Hu. destruct (w_published w u) eqn:Hp.
+  - destruct (H3 u) as [F1 F2]; [intros H'; apply Hin in H'; destruct H'; congruence|].
+    rewrite F1, F2. split; [exact Hp|apply Hpub; exact Hp].
+  - apply H2. apply Hin. auto.
+Qed.
+
+(* histories of publish() invocations with the atomic store: any number of
+   faulted runs, any listing orders *)
+Definition run_wf (files : imgid -> list name) (r : run) : Prop :=
+  NoDup (r_order r) /\
+  forall u, In u (r_order r) ->
+    NoDup (listing_fun (r_listing r) u) /\ Permutation (listing_fun (r_listing r) u) (files u).
+
+Lemma run_all_atomic_safe files : forall rs w,
+  (forall r, In r rs -> run_wf files r) -> WorldOk files w -> WorldOk files (run_all true rs w).
+Proof.
+  induction rs as [|r rs IH]; intros w Hwf Hw; cbn [run_all]; [exact Hw|].
+  apply IH; [intros r' Hr'; apply Hwf; right; exact Hr'|].
+  destruct (Hwf r (or_introl eq_refl)) as [Hnd Hl].
+  exact (proj1 (publish_safe true files (listing_fun (r_listing r)) (r_order r) (r_fault r) w
+                  Hnd Hl (fun _ _ _ => or_introl eq_refl) Hw)).
+Qed.
+
+Lemma clean_world_ok files : WorldOk files clean_world.
+Proof. split; [intros u Hp; discriminate|intros u Hp; discriminate]. Qed.
+
+(* the first (possibly faulted) run from a store that has no index.wtml for the
+   approved images, with the store as found (writes in place) *)
+Lemma first_run_safe files listing order f w :
+  NoDup order ->
+  (forall u, In u order -> NoDup (listing u) /\ Permutation (listing u) (files u)) ->
+  (forall u, In u order -> w_published w u = false -> w_store w u INDEX = Absent) ->
+  WorldOk files w ->
+  WorldOk files (fst (fst (publish false order listing f w))).
+Proof.
+  intros Hnd Hl Habs Hw.
+  exact (proj1 (publish_safe false files listing order f w Hnd Hl
+                  (fun u Hu Hp => or_intror (Habs u Hu Hp)) Hw)).
+Qed.
+
+(* ... but not a second faulted run: in-place writes under an index.wtml that
+   an earlier run already put *)
+Definition wit_files (u : imgid) : list name := if N.eqb u 1 then [0; 1; 2]%N else [].
+Definition wit_runs : list run :=
+  [ mkRun [1%N] [(1%N, [1; 0; 2]%N)] (During 3);
+    mkRun [1%N] [(1%N, [2; 0; 1]%N)] (During 1) ].
+
+Lemma sequence_refuted :
+  (forall r, In r wit_runs -> run_wf wit_files r) /\
+  WorldOk wit_files clean_world /\
+  let w := run_all false wit_runs clean_world in
+  present (w_store w 1%N INDEX) = true /\ w_store w 1%N 2%N = Partial /\
+  refresh_skips w 1%N = true /\ ~ WorldOk wit_files w.
+Proof.
+  split; [|split; [apply clean_world_ok|]].
+  - intros r [<-|[<-|[]]]; (split; [repeat constructor; cbn; tauto|]);
+      intros u [<-|[]]; cbn; (split; [repeat constructor; cbn; intuition discriminate|]).
+    + apply perm_swap.
+    + eapply perm_trans; [apply perm_swap|]. apply perm_skip. apply perm_swap.
+  - cbn zeta. split; [vm_compute; reflexivity|]. split; [vm_compute; reflexivity|].
+    split; [vm_compute; reflexivity|].
+    intros [Hs _]. specialize (Hs 1%N). assert (Hp : present (w_store (run_all false wit_runs clean_world) 1%N INDEX) = true)
+      by (vm_compute; reflexivity).
+    specialize (Hs Hp 2%N).
+    assert (E : w_store (run_all false wit_runs clean_world) 1%N 2%N = Partial) by (vm_compute; reflexivity).
+    rewrite E in Hs. assert (Partial = Complete) by (apply Hs; [cbn; tauto|discriminate]). discriminate.
 Qed.
